@@ -101,3 +101,37 @@ Definition holds_C16 (c : case) : bool := ref_run (key_lt (c_max c)) true true [
 (* the history only names live items (harness sanity; not a verdict about the implementation) *)
 Definition wf_C16 (c : case) : bool := ref_run (key_lt (c_max c)) false false [] 0 (c_ops c).
 
+(* ---- smallest / largest (graphtage/utils.py): the n items with the smallest (largest) keys ----
+   A case: the keys of the input sequence in order (item i = (key_i, i)), n, and the items the real
+   generator yielded, as (key, id). *)
+Record scase := { s_max : bool (* largest() *); s_keys : list Z; s_n : Z; s_out : list (Z * Z) }.
+
+Fixpoint kitems (i : Z) (keys : list Z) : list (Z * Z) :=
+  match keys with [] => [] | k :: r => (k, i) :: kitems (i + 1) r end.
+Definition pair_eqb (p q : Z * Z) : bool := Z.eqb (fst p) (fst q) && Z.eqb (snd p) (snd q).
+Fixpoint rm1 (p : Z * Z) (l : list (Z * Z)) : option (list (Z * Z)) :=
+  match l with
+  | [] => None
+  | q :: r => if pair_eqb p q then Some r
+              else match rm1 p r with Some r' => Some (q :: r') | None => None end
+  end.
+(* remove the yielded items one by one from the input items: what is left over, if they all were there *)
+Fixpoint take_out (l out : list (Z * Z)) : option (list (Z * Z)) :=
+  match out with [] => Some l | p :: r => match rm1 p l with Some l' => take_out l' r | None => None end end.
+Fixpoint sorted_by (lt : Z -> Z -> bool) (l : list Z) : bool :=
+  match l with
+  | a :: (b :: _) as r => negb (lt b a) && sorted_by lt r
+  | _ => true
+  end.
+
+(* min(max(n,0), len) items are yielded, they are input items (as a multiset), no left-over item has a key
+   below a yielded one, and - when the heap is used at all (len > n) - they come in key order *)
+Definition holds_small (lt : Z -> Z -> bool) (keys : list Z) (n : Z) (out : list (Z * Z)) : bool :=
+  Z.eqb (Z.of_nat (length out)) (Z.min (Z.max n 0) (Z.of_nat (length keys))) &&
+  match take_out (kitems 0 keys) out with
+  | None => false
+  | Some rest => forallb (fun a => forallb (fun b => negb (lt (fst b) (fst a))) rest) out
+  end &&
+  (Z.leb (Z.of_nat (length keys)) n || sorted_by lt (map fst out)).
+
+Definition holds_C16s (c : scase) : bool := holds_small (key_lt (s_max c)) (s_keys c) (s_n c) (s_out c).
